@@ -155,7 +155,15 @@ impl Monitor for C16 {
                         json!({"cell": cell, "len": len, "preamble": pre.map(|x| x as i64), "expected_us": exp.to_string(), "got": got as u64}),
                     );
                 } else if got != exp {
-                    let dir = if got > exp { "over" } else { "under" };
+                    // error class: exactly one code word block (CR+4 symbols) off, or anything else
+                    let unit = crd * tsym;
+                    let diff = (got - exp).abs();
+                    let dir = match (got > exp, (diff - unit).abs() <= 1) {
+                        (true, true) => "over-1cw",
+                        (true, false) => "over-other",
+                        (false, true) => "under-1cw",
+                        (false, false) => "under-other",
+                    };
                     // how many symbols off (if a whole number of symbols without preamble)
                     let got_sym = if tsym > 0 && pre.is_none() && got % tsym == 0 { Some((got / tsym) as i64) } else { None };
                     crate::viol(col, &format!("C16|toa|mismatch|{}|hdr={}|{}", numclass, hdr, dir), "time_on_air_us differs from the Semtech formula", || {
